@@ -277,6 +277,11 @@ def sem_oracle(k, s):
         FLAT_STATS["defined"] = FLAT_STATS.get("defined", 0) + 1
         if toks(o).get("status") == "0" and toks(o).get("out") != fl:
             return "the flat shell model of the C01/C02 theorems (Sem/FlatLoop.v) prints %r, /bin/bash prints %r" % (hexs(fl)[:300], hexs(toks(o).get("out", ""))[:300])
+    jo = toks(spec).get("jout")
+    if jo is not None:
+        FLAT_STATS["jdefined"] = FLAT_STATS.get("jdefined", 0) + 1
+        if toks(spec).get("status") == "0" and toks(spec).get("out") != jo:
+            return "the source semantics J of the simulation theorems (Sem/JRun.v) prints %r, the reference semantics Sem/Src.v prints %r" % (hexs(jo)[:300], hexs(toks(spec).get("out", ""))[:300])
     if obs_equal("run", o, spec):
         return None
     return "Bash run differs from the reference semantics: expected %s" % spec[:600]
@@ -346,15 +351,17 @@ def run_sem_round(ctx, ck, name, oracles, n, seed_off):
 
 
 def run_c01(ctx, ck):
-    IGNORED_KEYS.add("flat")
+    IGNORED_KEYS.add("flat"); IGNORED_KEYS.add("jout")
     run_sem(ctx, ck, ["sem-scalar"], [sem_oracle], 1500, 10000)
     ctx.cov["flat_shell_model_validated_against_bash"] = FLAT_STATS.get("defined", 0)
+    ctx.cov["source_semantics_J_validated_against_reference"] = FLAT_STATS.get("jdefined", 0)
 
 
 def run_c02(ctx, ck):
-    IGNORED_KEYS.add("flat")
+    IGNORED_KEYS.add("flat"); IGNORED_KEYS.add("jout")
     run_sem(ctx, ck, ["sem-funcs"], [sem_oracle], 1200, 8000)
     ctx.cov["flat_shell_model_with_call_oracle_validated_against_bash"] = FLAT_STATS.get("defined", 0)
+    ctx.cov["source_semantics_J_validated_against_reference"] = FLAT_STATS.get("jdefined", 0)
 
 
 def run_c03(ctx, ck):
